@@ -4,7 +4,8 @@
 #   1. fresh scratch worktree of /repo HEAD (outside /repo and /verif), removed at the end
 #   2. demo passes WITHOUT the change            3. change applies, builds, existing suite passes
 #   4. demo fails WITH the change                5. ./check <ID> quick with VERIF_REPO=<worktree> -> expected exit 1
-# Prints one RESULT line. Env: SEED_TIER=quick|thorough (default quick), KEEP=1 keeps the worktree.
+# Prints one RESULT line. Env: SEED_TIER=quick|thorough (default quick), KEEP=1 keeps the worktree,
+# SKIP_SUITE=1 does not re-run the pinned suite (re-sweeps of changes that were confirmed when they were stored).
 set -u
 D=$(readlink -f "$1"); shift
 IDS="$*"
@@ -48,12 +49,14 @@ fi
 if ! git -C $WT apply "$D/patch.diff" >>$LOG 2>&1; then echo "RESULT $D patch-does-not-apply"; exit 2; fi
 if ! (cd $WT && go build ./... ) >>$LOG 2>&1; then echo "RESULT $D does-not-compile"; exit 2; fi
 suite=pass
+[ "${SKIP_SUITE:-0}" = 1 ] && suite="not-rerun(confirmed-when-stored)"
 for attempt in 1 2 3; do
+  [ "${SKIP_SUITE:-0}" = 1 ] && break
   (cd $WT && timeout 1500 go test -count=1 ./... ) >$LOG.suite 2>&1
   fails=$(grep -E '^(--- FAIL|FAIL)' $LOG.suite | grep -v 'TestBunch2' | grep -E '^--- FAIL' | awk '{print $3}' | sort -u | tr '\n' ' ')
   if [ -z "$fails" ]; then suite=pass; break; else suite="FAIL($fails)"; fi
 done
-cat $LOG.suite >> $LOG; rm -f $LOG.suite
+[ -f $LOG.suite ] && cat $LOG.suite >> $LOG; rm -f $LOG.suite
 if [ -n "$demo_pkgs" ]; then
   copy_demo
   if run_demo; then demo_with=PASS-unexpected; else demo_with=fails-as-expected; fi
